@@ -193,6 +193,7 @@ def _render(n: dict) -> str:
     if n["ld"]:
         words.append(bi.d10(n["ld"]))
     words.append(f"u{n['uid']}v{n['ver']}")
+    words += [f"q::u{n['uid']}", f"+t{n['uid']}"]
     line = n["kind"] + (f" {n['prio']}" if n["prio"] else "") + " " * n["gap"] + " ".join(words) + "\n"
     if n["nl"] == 2:
         line += f"  * b{n['uid']}v{n['ver']}\n"
